@@ -29,6 +29,8 @@ type c19Case struct {
 	// TNil: 1 / 2 = the non-nil elements at even / odd positions are typed nil pointers ((*int)(nil), a nil
 	// *Stack ...): values like any other, no gaps
 	TNil int `json:"typed_nil_pointer_elements,omitempty"`
+	// Log: every log level switched on and a live logger installed on the stack that is compacted
+	Log bool `json:"all_log_levels_live_logger,omitempty"`
 }
 
 func (cs c19Case) pattern() string {
@@ -240,6 +242,9 @@ func c19Run(c *Ctx, cs c19Case, count bool) {
 	if cs.PreErr {
 		target.SetErr(errCat)
 	}
+	if cs.Log {
+		target.SetLogger(c11EnvLogger).SetLogLevel("all")
+	}
 	var want []any
 	for _, v := range vals {
 		if v != nil {
@@ -362,6 +367,18 @@ func c19Run(c *Ctx, cs c19Case, count bool) {
 		return pre + cls
 	}
 	hasNil := cs.Mask != (1<<cs.Len)-1 || cs.Long != ""
+	if !hasNil && cs.PreErr {
+		// nothing to compact, but an earlier call had left an error behind: the content stays, and Err() is
+		// nil afterwards like after any other Defrag (the statement asks for both)
+		if !sameList(got, want) {
+			c.Violation(pre+"changed-without-nil", fmt.Sprintf("Defrag altered the content of a stack that holds no nil: %s want %s (%s)", showList(got), showList(want), jsonString(cs)), cs, size)
+		}
+		if err := target.Err(); err != nil {
+			c.Violation(rec("err-left", true), fmt.Sprintf("Err()=%v after Defrag of a stack without nil that carried an earlier error: %s", err, jsonString(cs)), cs, size)
+		}
+		c.Outcome("untouched-error-cleared")
+		return
+	}
 	if !hasNil {
 		after := dumpKey(recv)
 		if cs.Place == "in-cond-alias" {
@@ -442,16 +459,16 @@ func c19Cases(c *Ctx) []c19Case {
 					if (opt.neg || opt.fwd) && (lim != 0 || n > maxLen-2) {
 						continue
 					}
-					out = append(out, c19Case{n, mask, lim, opt.neg, opt.fwd, "top", "LIST", false, "", false, 0, false, 0})
+					out = append(out, c19Case{n, mask, lim, opt.neg, opt.fwd, "top", "LIST", false, "", false, 0, false, 0, false})
 					if mask != (1<<n)-1 && !opt.neg && !opt.fwd && (lim == 0 || lim == 3) && n <= nestLen+2 {
-						out = append(out, c19Case{n, mask, lim, false, false, "top", "LIST", true, "", false, 0, false, 0})
+						out = append(out, c19Case{n, mask, lim, false, false, "top", "LIST", true, "", false, 0, false, 0, false})
 					}
 				}
 				if n <= nestLen && (lim == 0 || lim == 3) {
 					for _, pl := range []string{"top-mutex", "top-decorated", "in-stack", "alias", "ptr-alias", "in-cond", "in-cond-only", "in-cond-alias", "deep", "in-stack-parent-options", "in-cond-nonesting-parent"} {
-						out = append(out, c19Case{n, mask, lim, false, false, pl, "AND", false, "", false, 0, false, 0})
+						out = append(out, c19Case{n, mask, lim, false, false, pl, "AND", false, "", false, 0, false, 0, false})
 						if mask != (1<<n)-1 && n <= 4 && lim == 0 {
-							out = append(out, c19Case{n, mask, lim, false, false, pl, "AND", true, "", false, 0, false, 0})
+							out = append(out, c19Case{n, mask, lim, false, false, pl, "AND", true, "", false, 0, false, 0, false})
 						}
 					}
 				}
@@ -500,6 +517,26 @@ func c19Cases(c *Ctx) []c19Case {
 			}
 		}
 	}
+	// every log level on, a live logger behind it (alone each is covered by the decorated placements)
+	for n := 1; n <= 7; n++ {
+		for mask := 0; mask < 1<<n; mask++ {
+			for _, pl := range []string{"top", "in-stack", "in-cond"} {
+				if pl != "top" && n > nestLen {
+					continue
+				}
+				out = append(out, c19Case{Len: n, Mask: mask, Place: pl, Kind: "AND", Log: true})
+			}
+		}
+	}
+	for _, long := range []string{"1,5x0,1", "2x1,5x0,9x1", "5x0,20x1", "1,7x0,1,7x0,1"} {
+		out = append(out, c19Case{Place: "top", Kind: "LIST", Long: long, Log: true}, c19Case{Place: "in-stack", Kind: "AND", Long: long, Log: true})
+	}
+	// no nil at all, but an error left behind by an earlier call (a refused setter, a rejected push)
+	for n := 0; n <= 5; n++ {
+		for _, pl := range []string{"top", "top-mutex", "in-stack", "in-cond", "deep", "alias"} {
+			out = append(out, c19Case{Len: n, Mask: (1 << n) - 1, Place: pl, Kind: "AND", PreErr: true}, c19Case{Len: n, Mask: (1 << n) - 1, Place: pl, Kind: "AND", PreErr: true, Neg: true, Limit: 13})
+		}
+	}
 	// typed nil pointers among the values: they are values (C08, C15), not gaps
 	for n := 1; n <= 6; n++ {
 		for mask := 1; mask < 1<<n; mask++ {
@@ -537,7 +574,7 @@ func c19Cases(c *Ctx) []c19Case {
 				if pl == "top" {
 					kind = "LIST"
 				}
-				out = append(out, c19Case{0, 0, lim, false, false, pl, kind, false, long, false, 0, false, 0})
+				out = append(out, c19Case{0, 0, lim, false, false, pl, kind, false, long, false, 0, false, 0, false})
 			}
 		}
 	}
